@@ -71,7 +71,7 @@ func GenStubs(h *HarnessSpec, stubs map[string]string, ov map[string][]byte) (*S
 	hooks := &StubHooks{}
 	var targets []string
 	for t := range stubs {
-		if h.modelTargets[t] {
+		if h.isModelTarget(t) {
 			continue // symbolic-world model of a non-repository function: the native run calls the real one
 		}
 		targets = append(targets, t)
